@@ -99,13 +99,25 @@ class Sub(Scalars):
     pass
 
 
+_PROXY_SRC: dict[int, dict] = {}
+
+
+def _proxy(d: dict):
+    """a read-only *view* of a dict the caller keeps (and may mutate later)"""
+    from types import MappingProxyType
+
+    p = MappingProxyType(d)
+    _PROXY_SRC[id(p)] = d
+    return p
+
+
 # name -> (class, [argument builders])  (builders return fresh mutable containers)
 CATALOGUE: dict[str, tuple[type, list]] = {
     "Scalars": (Scalars, [lambda: {"a": 1}, lambda: {"a": 2, "b": "y", "c": 2.5}]),
     "Sub": (Sub, [lambda: {"a": 1}]),
     "SeqS": (SeqS, [lambda: {"items": [1, 2]}, lambda: {"items": []}]),
     "SetS": (SetS, [lambda: {"tags": {"p", "q"}}, lambda: {"tags": set()}]),
-    "MapS": (MapS, [lambda: {"m": {"ab": 1, "k": 2}}, lambda: {"m": {}}]),
+    "MapS": (MapS, [lambda: {"m": {"ab": 1, "k": 2}}, lambda: {"m": {}}, lambda: {"m": _proxy({"ab": 1, "k": 2})}]),
     "Tup2": (Tup2, [lambda: {"t": (1, "s")}]),
     "TupV": (TupV, [lambda: {"t": (1, 2, 3)}]),
     "Nested": (
@@ -119,7 +131,7 @@ CATALOGUE: dict[str, tuple[type, list]] = {
     "Defaults": (Defaults, [lambda: {}, lambda: {"y": [5]}]),
     "SeqSeq": (SeqSeq, [lambda: {"rows": [[1], [2, 3]]}]),
     "MapSeq": (MapSeq, [lambda: {"m": {"ab": [1, 2]}}]),
-    "SeqMap": (SeqMap, [lambda: {"rows": [{"ab": 1}]}]),
+    "SeqMap": (SeqMap, [lambda: {"rows": [{"ab": 1}]}, lambda: {"rows": [_proxy({"ab": 1})]}]),
     "OptS": (OptS, [lambda: {}, lambda: {"o": [1]}]),
 }
 
@@ -159,6 +171,17 @@ def explore_config(tier: str, program) -> dict:
     return {}
 
 
+def _equal_but_invalid(v):
+    """a value == v whose type an int-ish annotation rejects; None when there is none"""
+    if type(v) is int:
+        return float(v)
+    if type(v) is tuple and v and all(type(e) is int for e in v):
+        return tuple(float(e) for e in v)
+    if isinstance(v, Mapping) and v and all(type(e) is int for e in v.values()):
+        return {k: float(e) for k, e in v.items()}
+    return None
+
+
 def snap(inst) -> dict:
     cls = type(inst)
     out: dict[str, Any] = {}
@@ -190,6 +213,8 @@ def mutators(args: dict) -> list[tuple[str, Any]]:
                 out.append((f"{path}.clear", lambda v=v: v.clear()))
             for kk, e in list(v.items()):
                 visit(f"{path}[{kk!r}]", e)
+        elif id(v) in _PROXY_SRC:
+            visit(f"{path}.viewed-dict", _PROXY_SRC[id(v)])
 
     for k, v in args.items():
         visit(k, v)
@@ -238,6 +263,10 @@ def execute(program, ch: Chooser) -> Result:  # noqa: C901, PLR0912, PLR0915
             ops.append((f"updated {','.join(subset) or '-'}+unknown", ("upd", subset, "unknown")))
             for bad in subset:
                 ops.append((f"updated {','.join(subset)} invalid={bad}", ("upd", subset, ("bad", bad))))
+            if len(subset) == 1 and _equal_but_invalid(getattr(inst, subset[0], None)) is not None:
+                # a replacement that compares == to the current value but has a type the
+                # annotation rejects (1.0 for 1, (1.0, 2.0) for (1, 2) ...) must be re-validated
+                ops.append((f"updated {subset[0]} equal-but-invalid", ("upd", subset, ("eqbad", subset[0]))))
     ops.append(("copy", ("copy",)))
     ops.append(("deepcopy", ("deepcopy",)))
 
@@ -277,6 +306,9 @@ def execute(program, ch: Chooser) -> Result:  # noqa: C901, PLR0912, PLR0915
             expect_fail = False
             if extra == "unknown":
                 kw["unknown_name"] = 1
+            elif isinstance(extra, tuple) and extra[0] == "eqbad":
+                kw = {extra[1]: _equal_but_invalid(getattr(inst, extra[1]))}
+                expect_fail = True
             elif isinstance(extra, tuple):
                 kw[extra[1]] = rep[extra[1]][1]
                 expect_fail = True
